@@ -83,14 +83,31 @@ def _run_batch(cmd, reqs, timeout, env=None, solo=False):
             inp = f.name
         outp = inp + ".out"
         try:
-            try:
-                p = subprocess.run([HARNESS_BIN, cmd, inp, outp], stdout=subprocess.DEVNULL,
-                                   stderr=subprocess.PIPE, timeout=timeout * max(1, len(pending)) + 20,
-                                   env=env)
-                rc, err = p.returncode, p.stderr
-                timed = False
-            except subprocess.TimeoutExpired as e:
-                rc, err, timed = -999, e.stderr or b"", True
+            # watchdog on progress: a request that produces no result within `timeout` seconds is a hang
+            # (the process is killed at once; the whole batch does not wait for it)
+            errf = tempfile.TemporaryFile()
+            p = subprocess.Popen([HARNESS_BIN, cmd, inp, outp], stdout=subprocess.DEVNULL, stderr=errf, env=env)
+            timed = False
+            last_size, last_progress = -1, time.time()
+            while True:
+                try:
+                    p.wait(timeout=0.25)
+                    break
+                except subprocess.TimeoutExpired:
+                    pass
+                size = os.path.getsize(outp) if os.path.exists(outp) else 0
+                now = time.time()
+                if size != last_size:
+                    last_size, last_progress = size, now
+                elif now - last_progress > timeout + (15 if size == 0 else 2):
+                    timed = True
+                    p.kill()
+                    p.wait()
+                    break
+            rc = -999 if timed else p.returncode
+            errf.seek(0)
+            err = errf.read()
+            errf.close()
             out = open(outp, "rb").read() if os.path.exists(outp) else b""
         finally:
             os.unlink(inp)
